@@ -669,6 +669,53 @@ def DistinctKeysD : List (Key × J) → Prop
 end
 
 mutual
+/-- `DistinctKeys` as a test: the driver refuses a request whose value has a repeated key
+(`C11.distinct_checked`) -/
+def distinctB : J → Bool
+  | .str _ => true
+  | .int _ => true
+  | .num _ => true
+  | .kw _ => true
+  | .list xs => distinctBL xs
+  | .dict kvs => decide ((kvs.map (·.1)).Nodup) && distinctBD kvs
+def distinctBL : List J → Bool
+  | [] => true
+  | x :: xs => distinctB x && distinctBL xs
+def distinctBD : List (Key × J) → Bool
+  | [] => true
+  | (_, v) :: r => distinctB v && distinctBD r
+end
+
+/-- CPython's `str(int)` refuses an int of more than `sys.get_int_max_str_digits()` decimal digits
+(default 4300) with `ValueError`; `showInt` has no such limit. -/
+def maxStrDigits : Nat := 4300
+
+/-- at most `maxStrDigits` decimal digits -/
+def intPrintable (n : Int) : Bool := decide (n.natAbs < 10 ^ maxStrDigits)
+
+def keyPrintable : Key → Bool
+  | .int n => intPrintable n
+  | _ => true
+
+mutual
+/-- every int of the value (values and keys) is one that CPython's `str()` prints: the driver
+answers `err ValueError` otherwise, as the real printer does (outside the domain of C11) -/
+def intsPrintable : J → Bool
+  | .str _ => true
+  | .int n => intPrintable n
+  | .num _ => true
+  | .kw _ => true
+  | .list xs => intsPrintableL xs
+  | .dict kvs => intsPrintableD kvs
+def intsPrintableL : List J → Bool
+  | [] => true
+  | x :: xs => intsPrintable x && intsPrintableL xs
+def intsPrintableD : List (Key × J) → Bool
+  | [] => true
+  | (k, v) :: r => keyPrintable k && intsPrintable v && intsPrintableD r
+end
+
+mutual
 /-- every dict inside the value lists its entries in strictly increasing key order -/
 def KeysSorted : J → Prop
   | .str _ => True
